@@ -1272,7 +1272,6 @@ impl Interp {
                 }
                 self.trace(format!("[{i}] s{s}: {sql}"));
                 self.tags.extend(tags);
-                let eng = self.db.sexec(*s, &sql);
                 let mut txn = self.txns.remove(s).unwrap();
                 let view_before = txn.view.clone();
                 if self.check_outputs {
@@ -1291,6 +1290,8 @@ impl Interp {
                         txn = self.txns.remove(s).unwrap();
                     }
                 }
+                // (the statement runs after the view check above, which must see the state before it)
+                let eng = self.db.sexec(*s, &sql);
                 let n_eff = txn.effects.len();
                 let m = self.model.exec(&mut txn, &stmt);
                 for e in &txn.effects[n_eff..] {
@@ -1554,7 +1555,7 @@ impl Interp {
                 None
             }
             Step::Flush => {
-                if self.txns.values().any(|t| t.wrote) {
+                if self.txns.iter().any(|(s, t)| t.wrote || self.doomed.contains(s)) {
                     if !self.allow_flush_with_open_writer && self.skip_if_excluded(&["admin.flush_with_open_writer".to_string()]) {
                         return None;
                     }
